@@ -1175,6 +1175,7 @@ func (p *proposalShard) takeProposal(clientID uint64,
 
 func (p *proposalShard) committed(clientID uint64, seriesID uint64, key uint64) {
 	if ps := p.borrowProposal(clientID, seriesID, key, p.getTick()); ps != nil {
+		verifGate("proposalShard.committed")
 		ps.committed()
 	}
 }
